@@ -59,7 +59,10 @@ def inject(rng, ch, node, kind, is_root, scn_hooks):
         st["threshold"] = 2
     elif kind == "step_rule":
         st = rng.choice(node.steps)
-        st["rules"] = ([["ALLOW", "*"]], [["REQUIRE", "absent-file"]])
+        # the violated rule first, or reached only after earlier rules have consumed every artifact
+        st["rules"] = ([["ALLOW", "*"]], rng.choice([[["REQUIRE", "absent-file"]],
+                                                     [["ALLOW", "*"], ["REQUIRE", "absent-file"]],
+                                                     [["CREATE", "*"], ["MODIFY", "*"], ["ALLOW", "*"], ["require", "absent-file"]]]))
     elif kind == "unloadable_link":
         scn_hooks.append(("unloadable", node))
     return True
